@@ -56,6 +56,22 @@ func runC07(r *rt.Run) {
 		})
 		w.States += n
 	})
+	// large documents, as they are, and with their last byte removed / one byte appended
+	large := docgen.LargeDocs()
+	r.Bounds["large_documents"] = len(large)
+	r.ParFor(len(large), func(i int, w *rt.Worker) {
+		for vi, text := range []string{large[i], large[i][:len(large[i])-1], large[i] + "x", " \n" + large[i] + "\t "} {
+			w.States++
+			w.Nontriv++
+			for _, os := range []optSet{optDefault, optAlt} {
+				w.Evals++
+				c07One(text, os, func(class string, c rt.Case, exp, got string) {
+					c.Doc = fmt.Sprintf("large#%d/variant%d", i, vi)
+					w.Fail(class+"-large", func() (rt.Case, string, string) { return c, trunc(exp), trunc(got) })
+				})
+			}
+		}
+	})
 	// all token strings
 	depth := 5
 	if r.Thorough() {
